@@ -397,6 +397,30 @@ class Structural:
             return None
         return self._sort_closure(arr)
 
+    @reg('numpy.argsort')
+    def np_argsort(self, x, axis=-1, kind=None, stable=None):
+        """indices that sort a 1-d array ascending; bounded arrays only (stable insertion sort with forking comparisons, so the
+        result is a concrete permutation on every path; NumPy's default sort is not stable: ties are forked BOTH ways unless
+        kind='stable'/'mergesort' or stable=True is requested)"""
+        x = self.asarray(x)
+        if not (isinstance(x, BArr) and x.a.ndim == 1):
+            raise EngineError('argsort of a symbolic-length or n-d array')
+        want_stable = bool(stable) or kind in ('stable', 'mergesort')
+        vals = [N(v) for v in x.a.tolist()]
+        order = []
+        for idx, v in enumerate(vals):
+            pos = len(order)
+            while pos > 0:
+                w = vals[order[pos - 1]]
+                if self.itp.fork(T.slt(v, w), 'argsort'):
+                    pos -= 1
+                elif not want_stable and self.itp.fork(T.seq(v, w), 'argsort-tie') and self.itp.fork(T.fresh('tie', T.B), 'argsort-tie-order'):
+                    pos -= 1
+                else:
+                    break
+            order.insert(pos, idx)
+        return A.barr_from(order, 'int')
+
     @reg('numpy.sort')
     def np_sort(self, x, axis=-1):
         x = self.np_array(x)                     # sorted COPY
